@@ -229,7 +229,7 @@ package ast
 //@ -- Transform of a non-terminal: its interpreter's own transformer if it has one (called once, with this node);
 //@ -- otherwise every child slot receives the result of transforming the child, and the node itself is returned
 //@ func (n *NonTerminalNode) Transform(userCtx interface{}) (r parsley.Node, err parsley.Error)
-//@   props C13
+//@   props C13,C04
 //@   logs parsley.NodeTransformer.TransformNode
 //@   requires n != nil && forall k int :: 0 <= k && k < len(n.children) ==> n.children[k] != nil
 //@   ensures  [result;C04] (r == nil) != (err == nil)
